@@ -8,6 +8,7 @@ package verifsim
 import (
 	"context"
 	"fmt"
+	"io"
 	"net"
 	"os"
 	"runtime/debug"
@@ -40,6 +41,8 @@ type AttemptPlan struct {
 	ImmediateError bool // the caller calls Error() right after Stream returns, on the same goroutine
 	LogYield       bool // every Errorf/Infof/Print of the library is a scheduling point (parking logger)
 	ForeignCtx     bool // the caller's context is not a standard-library context type
+	EnvErrKind     int  // which error value the failing handler / mapper returns (0 plain, 1 context.Canceled, 2 DeadlineExceeded, 3 io.EOF, 4 wrapped cancel)
+	EnvCancels     bool // a context-aware handler / mapper: the caller's context is cancelled just before it returns its error
 	DebugYield     bool // Debugf calls too (several per event: yield points in the middle of event processing)
 }
 
@@ -358,6 +361,9 @@ func (r *Run) MysqlTable(name gobinlog.MysqlTableName) (gobinlog.MysqlTable, err
 	switch v.kind {
 	case 1:
 		call.Verdict = "error"
+		if v.err != nil {
+			return nil, v.err
+		}
 		return nil, errMapper
 	case 2:
 		call.Verdict = fmt.Sprintf("miscount%+d", v.delta)
@@ -840,8 +846,12 @@ func (r *Run) runAttempt(idx int, plan AttemptPlan) bool {
 		if plan.Stop == stopMapperErr || plan.Stop == stopMapperMiscount {
 			if m != nil && len(att.MapperCalls) == plan.CallIndex && !causeFired {
 				if plan.Stop == stopMapperErr {
+					if plan.EnvCancels {
+						fire("cancel")
+						r.cancel()
+					}
 					fire("mapper-error")
-					r.releaseMapper(mapperVerdict{kind: 1})
+					r.releaseMapper(mapperVerdict{kind: 1, err: envError(plan.EnvErrKind, errMapper)})
 				} else {
 					fire("mapper-miscount")
 					r.releaseMapper(mapperVerdict{kind: 2, delta: plan.MiscountDelta})
@@ -855,8 +865,12 @@ func (r *Run) runAttempt(idx int, plan AttemptPlan) bool {
 				conn.deliver(r.segment(&plan, wire, dumping))
 				continue
 			}
+			if plan.EnvCancels {
+				fire("cancel")
+				r.cancel()
+			}
 			fire("handler-error")
-			r.releaseHandler(errHandler)
+			r.releaseHandler(envError(plan.EnvErrKind, errHandler))
 			continue
 		}
 		if plan.Stop == stopCancel && dumping && !causeFired && master.packetsDelivered() >= minInt(plan.CancelAfter, len(master.packets)) {
@@ -1269,4 +1283,21 @@ func (r *Run) release() {
 		r.conn.mu.Unlock()
 	}
 	r.master, r.conn, r.streamer = nil, nil, nil
+}
+
+// envError picks the error value a failing handler / mapper returns: values
+// that coincide with what the library uses internally to classify stream ends
+// must still be reported as failures.
+func envError(kind int, plain error) error {
+	switch kind {
+	case 1:
+		return context.Canceled
+	case 2:
+		return context.DeadlineExceeded
+	case 3:
+		return io.EOF
+	case 4:
+		return fmt.Errorf("downstream: %w", context.Canceled)
+	}
+	return plain
 }
